@@ -12,158 +12,289 @@ import (
 
 // ---- C14.W2 / C14.U1 -------------------------------------------------------------------------------------------------
 
-// runC14W2: the weight of a command is the text the service registered, not a re-rendered number.
+// runC14W2: the weight of a command is the text the service registered, not a re-rendered number. Asked of the backward
+// slice of every command (wherever the option is read and wherever the text is assembled - one function, a spec struct
+// filled by one helper and rendered by another, a table of option handlers): no formatting call in the slice takes a
+// number that was parsed from text.
 func runC14W2(c *Ctx) {
-	n := 0
-	for _, f := range c.fnsWhere("registry/consul", func(fn *ssa.Function) bool {
+	c14ctx = c
+	st := c14stateOf(c)
+	isParsed := func(v ssa.Value) bool {
+		ex, ok := v.(*ssa.Extract)
+		if !ok || ex.Index != 0 {
+			return false
+		}
+		call, ok := ex.Tuple.(*ssa.Call)
+		if !ok {
+			return false
+		}
+		switch calleeName(&call.Call) {
+		case "strconv.ParseFloat", "strconv.Atoi", "strconv.ParseInt", "strconv.ParseUint":
+			return true
+		}
+		return false
+	}
+	isFormat := func(name string) bool {
+		return strings.HasPrefix(name, "fmt.Sprint") || strings.HasPrefix(name, "fmt.Fprint") || strings.HasPrefix(name, "fmt.Append") ||
+			strings.HasPrefix(name, "strconv.Format") || strings.HasPrefix(name, "strconv.Append") || name == "strconv.Itoa"
+	}
+	for _, sk := range st.sinks {
+		var bad *ssa.Call
+		seen := map[*ssa.Call]bool{}
+		c14slice(sk.val, func(x ssa.Value) {
+			call, ok := x.(*ssa.Call)
+			if !ok || seen[call] || bad != nil || !isFormat(calleeName(&call.Call)) {
+				return
+			}
+			seen[call] = true
+			for _, a := range call.Call.Args {
+				if c14derives(a, isParsed) {
+					bad = call
+				}
+			}
+		})
+		pos, key := sk.store.Pos(), fnKey(sk.fn)
+		if bad != nil {
+			pos, key = bad.Pos(), fnKey(bad.Parent())
+		}
+		c.check("C14.W2", key+"|registered numbers are copied, not re-rendered", pos, bad == nil,
+			"a number parsed from the registration (strconv.ParseFloat / Atoi / ParseInt) is formatted back into the command text: the command then denotes the rounded value, not the registered one (weight=0.00004 rendered with %.4f becomes 'weight 0.0000', i.e. NO fixed weight: the canary gets an equal share) — copy the option's text and let fabio's own parser judge it")
+	}
+	c.atLeast("C14.W2", "generators of route add commands", len(st.sinks), 1)
+}
+
+// runC14U1: the update loop skips an iteration only for unchanged text. The update loop is found by role: a loop whose
+// body (directly, or through the functions it calls - the body may have become a method of a small updater type)
+// reaches route.NewTable and route.SetTable. From the head of the loop the head cannot be reached again without passing
+// a PARSE POINT, except over an edge on which two non-constant strings are known to be equal (candidate == last). A parse
+// point is a call of route.NewTable, or a call of a repository function in which every path from entry to a return
+// passes a parse point (or such an edge).
+func runC14U1(c *Ctx) {
+	c14ctx = c
+	named := func(names ...string) func(ssa.Instruction) bool {
+		return func(i ssa.Instruction) bool {
+			cc := callCommon(i)
+			if cc == nil || cc.StaticCallee() == nil {
+				return false
+			}
+			for _, name := range names {
+				if funcName(cc.StaticCallee()) == repoMod+"/route."+name {
+					return true
+				}
+			}
+			return false
+		}
+	}
+	// (route.NewTableCustom is not a parse point: the custom backend's polling loop installs tables built from
+	// definitions it fetched, and a failed fetch has nothing to parse)
+	isNewTable, isSetTable := named("NewTable"), named("SetTable")
+	// may: the instruction does it, or calls (not: starts as a goroutine) repository code that may
+	var mayFn func(fn *ssa.Function, pred func(ssa.Instruction) bool, d int) bool
+	may := func(i ssa.Instruction, pred func(ssa.Instruction) bool, d int) bool {
+		if pred(i) {
+			return true
+		}
+		if _, isGo := i.(*ssa.Go); isGo {
+			return false
+		}
+		cc := callCommon(i)
+		if cc == nil || (cc.StaticCallee() != nil && !isRepoFn(cc.StaticCallee())) {
+			return false
+		}
+		for _, g := range c14callees(cc) {
+			if mayFn(g, pred, d+1) {
+				return true
+			}
+		}
+		return false
+	}
+	mayFn = func(fn *ssa.Function, pred func(ssa.Instruction) bool, d int) bool {
+		if fn == nil || !isRepoFn(fn) || len(fn.Blocks) == 0 || d > 3 {
+			return false
+		}
 		hit := false
 		eachInstr(fn, func(i ssa.Instruction) {
-			for _, op := range i.Operands(nil) {
-				if op != nil && *op != nil {
-					if s, ok := constString(*op); ok && strings.HasPrefix(s, "route add") {
-						hit = true
-					}
-				}
+			if !hit && may(i, pred, d) {
+				hit = true
 			}
 		})
 		return hit
-	}) {
-		n++
-		eachInstr(f, func(i ssa.Instruction) {
-			call, ok := i.(*ssa.Call)
-			if !ok {
-				return
+	}
+	// equalStrings: the fact says two non-constant strings are equal - directly, or as the verdict of a repository
+	// predicate every such outcome of which says so (`unchanged(next, last)`, `!u.changed(next)`)
+	var equalStrings func(ft Fact, d int) bool
+	equalStrings = func(ft Fact, d int) bool {
+		isStr := func(v ssa.Value) bool {
+			bt, ok := v.Type().Underlying().(*types.Basic)
+			return ok && bt.Info()&types.IsString != 0
+		}
+		if x, op, y, ok := c14cmp(ft); ok {
+			if op != token.EQL || !isStr(x) || !isStr(y) {
+				return false
 			}
-			name := calleeName(&call.Call)
-			if name != "strconv.ParseFloat" && name != "strconv.Atoi" && name != "strconv.ParseInt" {
-				return
+			_, kx := x.(*ssa.Const)
+			_, ky := y.(*ssa.Const)
+			return !kx && !ky
+		}
+		call, res, ok := c14callResult(ft.Cond)
+		if !ok || d > 2 || !c14isBoolType(ft.Cond.Type()) {
+			return false
+		}
+		// (bytes.Equal on slices is NOT accepted: a []byte kept from a reused buffer aliases the next candidate)
+		callees := c14callees(&call.Call)
+		if len(callees) == 0 {
+			return false
+		}
+		for _, g := range callees {
+			if g == nil || !isRepoFn(g) || len(g.Blocks) == 0 {
+				return false
 			}
-			// the parsed number flows into text (concatenation, Sprintf, FormatFloat)
-			reaches := false
-			eachInstr(f, func(j ssa.Instruction) {
-				cc := callCommon(j)
-				if cc == nil {
-					return
-				}
-				jn := calleeName(cc)
-				if strings.HasPrefix(jn, "fmt.Sprint") || strings.HasPrefix(jn, "strconv.Format") || jn == "strconv.Itoa" {
-					for _, a := range cc.Args {
-						for _, e := range append(c01Variadic(a), a) {
-							if derives(e, func(v ssa.Value) bool { return v == ssa.Value(call) }) {
-								reaches = true
-							}
-						}
+			envs := c14returnEnvs(g, c14verdict{Call: call, Res: res, Truth: ft.Truth})
+			if len(envs) == 0 {
+				return false
+			}
+			for _, env := range envs {
+				found := false
+				for _, f2 := range env.Facts {
+					if f2.Cond != ft.Cond && equalStrings(f2, d+1) {
+						found = true
 					}
 				}
-			})
-			c.check("C14.W2", fnKey(f)+"|registered numbers are copied, not re-rendered", i.Pos(), !reaches,
-				"a number parsed from the registration ("+name+") is formatted back into the command text: the command then denotes the rounded value, not the registered one (weight=0.00004 rendered with %.4f becomes 'weight 0.0000', i.e. NO fixed weight: the canary gets an equal share) — copy the option's text and let fabio's own parser judge it")
-		})
-	}
-	c.atLeast("C14.W2", "generators of route add commands", n, 1)
-}
-
-// runC14U1: between rebuilding the candidate text and parsing it, the update loop skips only for unchanged text.
-func runC14U1(c *Ctx) {
-	n := 0
-	for _, f := range c.fnsWhere("main", func(*ssa.Function) bool { return true }) {
-		for _, l := range loopsOf(f) {
-			// the parse of the candidate: a call (direct or via a helper) that reaches route.NewTable, inside the loop
-			isParse := func(i ssa.Instruction) bool {
-				cc := callCommon(i)
-				return cc != nil && cc.StaticCallee() != nil && funcName(cc.StaticCallee()) == repoMod+"/route.NewTable"
+				if !found {
+					return false
+				}
 			}
-			var parse ssa.Instruction
-			var sel *ssa.Select
+		}
+		return true
+	}
+	cut := func(pred, succ *ssa.BasicBlock) bool {
+		if len(pred.Instrs) == 0 || len(pred.Succs) != 2 || pred.Succs[0] == pred.Succs[1] {
+			return false
+		}
+		iff, ok := pred.Instrs[len(pred.Instrs)-1].(*ssa.If)
+		if !ok {
+			return false
+		}
+		for _, ft := range appendCondFacts(nil, iff.Cond, pred.Succs[0] == succ, 0) {
+			if equalStrings(ft, 0) {
+				return true
+			}
+		}
+		return false
+	}
+	// parse points
+	mustMemo := map[*ssa.Function]int{} // 1: in progress / no, 2: yes
+	var parsePoint func(i ssa.Instruction, d int) bool
+	var mustParse func(fn *ssa.Function, d int) bool
+	// escape: starting at instruction index idx of block b, can a target block (or, target == nil, a return) be reached
+	// inside `within` (nil: the whole function) without a parse point and without a cut edge? Returns where.
+	escape := func(b *ssa.BasicBlock, idx int, within map[*ssa.BasicBlock]bool, target *ssa.BasicBlock, d int) (token.Pos, bool) {
+		type item struct {
+			b   *ssa.BasicBlock
+			idx int
+		}
+		lastPos := func(blk *ssa.BasicBlock) token.Pos {
+			for k := len(blk.Instrs) - 1; k >= 0; k-- {
+				if blk.Instrs[k].Pos().IsValid() {
+					return blk.Instrs[k].Pos()
+				}
+			}
+			return token.NoPos
+		}
+		seen := map[*ssa.BasicBlock]bool{}
+		stack := []item{{b, idx}}
+		for len(stack) > 0 {
+			it := stack[len(stack)-1]
+			stack = stack[:len(stack)-1]
+			blocked := false
+			for k := it.idx; k < len(it.b.Instrs); k++ {
+				in := it.b.Instrs[k]
+				if parsePoint(in, d) {
+					blocked = true
+					break
+				}
+				if _, isRet := in.(*ssa.Return); isRet && target == nil {
+					return in.Pos(), true
+				}
+			}
+			if blocked {
+				continue
+			}
+			for _, sx := range it.b.Succs {
+				if cut(it.b, sx) {
+					continue
+				}
+				if target != nil && sx == target {
+					return lastPos(it.b), true
+				}
+				if (within == nil || within[sx]) && !seen[sx] {
+					seen[sx] = true
+					stack = append(stack, item{sx, 0})
+				}
+			}
+		}
+		return token.NoPos, false
+	}
+	mustParse = func(fn *ssa.Function, d int) bool {
+		if fn == nil || !isRepoFn(fn) || len(fn.Blocks) == 0 || d > 3 {
+			return false
+		}
+		if m := mustMemo[fn]; m != 0 {
+			return m == 2
+		}
+		mustMemo[fn] = 1
+		if _, esc := escape(fn.Blocks[0], 0, nil, nil, d); !esc {
+			mustMemo[fn] = 2
+		}
+		return mustMemo[fn] == 2
+	}
+	parsePoint = func(i ssa.Instruction, d int) bool {
+		if isNewTable(i) {
+			_, isGo := i.(*ssa.Go)
+			_, isDefer := i.(*ssa.Defer)
+			return !isGo && !isDefer
+		}
+		call, ok := i.(*ssa.Call)
+		if !ok || (call.Call.StaticCallee() != nil && !isRepoFn(call.Call.StaticCallee())) {
+			return false
+		}
+		callees := c14callees(&call.Call)
+		if len(callees) == 0 {
+			return false
+		}
+		for _, g := range callees {
+			if !mustParse(g, d+1) {
+				return false
+			}
+		}
+		return true
+	}
+
+	n := 0
+	for _, f := range c14fns(c) {
+		for _, l := range loopsOf(f) {
+			parses, installs := false, false
 			for b := range l.Body {
 				for _, in := range b.Instrs {
-					if liftMay(isParse)(in) {
-						if _, isGo := in.(*ssa.Go); !isGo {
-							parse = in
-						}
+					if may(in, isNewTable, 0) {
+						parses = true
 					}
-					if s, ok := in.(*ssa.Select); ok && len(s.States) >= 2 {
-						sel = s
+					if may(in, isSetTable, 0) {
+						installs = true
 					}
 				}
 			}
-			if parse == nil || sel == nil {
+			if !parses || !installs {
 				continue
 			}
 			n++
-			// from the select, the loop head is not reachable without the parse, except over an edge "candidate == last"
-			cut := func(pred, succ *ssa.BasicBlock) bool {
-				if len(pred.Instrs) == 0 || len(pred.Succs) != 2 {
-					return false
-				}
-				iff, ok := pred.Instrs[len(pred.Instrs)-1].(*ssa.If)
-				if !ok {
-					return false
-				}
-				truth := pred.Succs[0] == succ
-				for _, ft := range appendCondFacts(nil, iff.Cond, truth, 0) {
-					b, ok := ft.Cond.(*ssa.BinOp)
-					if !ok {
-						// a verdict helper: equal(a, b) on strings
-						continue
-					}
-					isStr := func(v ssa.Value) bool {
-						bt, ok := v.Type().Underlying().(*types.Basic)
-						return ok && bt.Kind() == types.String
-					}
-					if isStr(b.X) && isStr(b.Y) && (b.Op == token.EQL && ft.Truth || b.Op == token.NEQ && !ft.Truth) {
-						if _, isK := b.X.(*ssa.Const); isK {
-							continue
-						}
-						if _, isK := b.Y.(*ssa.Const); isK {
-							continue
-						}
-						return true
-					}
-				}
-				return false
+			skipAt, skips := escape(l.Head, 0, l.Body, l.Head, 0)
+			if skips && !skipAt.IsValid() {
+				skipAt = f.Pos()
 			}
-			skipAt := token.NoPos
-			type item struct {
-				b   *ssa.BasicBlock
-				idx int
-			}
-			seen := map[*ssa.BasicBlock]bool{}
-			stack := []item{{sel.Block(), instrIndex(sel) + 1}}
-			for len(stack) > 0 && skipAt == token.NoPos {
-				it := stack[len(stack)-1]
-				stack = stack[:len(stack)-1]
-				blocked := false
-				for k := it.idx; k < len(it.b.Instrs); k++ {
-					if it.b.Instrs[k] == parse {
-						blocked = true
-						break
-					}
-				}
-				if blocked {
-					continue
-				}
-				for _, sx := range it.b.Succs {
-					if cut(it.b, sx) {
-						continue
-					}
-					if sx == l.Head {
-						skipAt = sel.Pos()
-						for k := len(it.b.Instrs) - 1; k >= 0; k-- {
-							if it.b.Instrs[k].Pos().IsValid() {
-								skipAt = it.b.Instrs[k].Pos()
-								break
-							}
-						}
-					} else if l.Body[sx] && !seen[sx] {
-						seen[sx] = true
-						stack = append(stack, item{sx, 0})
-					}
-				}
-			}
-			c.check("C14.U1", fnKey(f)+"|a changed configuration is always parsed", skipAt, skipAt == token.NoPos,
-				"an update of the registry can return to the select without the new text being handed to route.NewTable although it differs from the last installed text: a failure of some side activity (registering aliases, logging, metrics) must not block table updates — one service's odd registration would freeze the routes of all services")
+			c.check("C14.U1", fnKey(f)+"|a changed configuration is always parsed", skipAt, !skips,
+				"an update of the registry can return to the head of the update loop without the new text being handed to route.NewTable although it differs from the last installed text: a failure of some side activity (registering aliases, logging, metrics) must not block table updates — one service's odd registration would freeze the routes of all services")
 		}
 	}
-	c.atLeast("C14.U1", "update loops of package main that parse the candidate text", n, 1)
+	c.atLeast("C14.U1", "update loops that parse the candidate text and install the table", n, 1)
 }
